@@ -12,6 +12,10 @@ CLAIMED = {
         'Gallina state machine + differential correspondence with the real Config/InverseOperator/threads',
         'All well-nested histories of any depth and all thread schedules are covered by theorems about the model '
         '(restore, innermost_wins, ends_with_defaults, capture, capture_effect / effects_determine_every_setting, capture_everywhere (any object derived from an inverse by reduce / composition / blocks / round trip / .I.I, applied through any route incl. jit arguments), thread_isolation); the model is tied to the code by '
+        'the event language separates BUILDING a Config object (its values are replace(configuration active at build, kwargs)) from ENTERING it '
+        '(preset_holds_build_time_configuration, preset_block_scopes_and_restores_enter_time, reentered_preset_block, capture_inside_preset_block, '
+        'handed_thread_has_defaults: objects entered at several depths, re-entered while open, handed to other threads); fail-closed AST tie on '
+        'Config.__init__/__enter__/__exit__/instance; applying inverses must leave every stored and active configuration unchanged (independent record); '
         'running the same histories (exhaustive up to 5-6 events, plus seeded random, plus all interleavings of short '
         'thread histories on real threads) on the real code and on the model evaluated by vm_compute; every captured '
         'setting is observed through its EFFECT on op.I(y) (failing and converging solves identified against NumPy CG references).',
